@@ -232,6 +232,71 @@ def _frame(b):
     return b"{%d}\n" % len(b) + b
 
 
+def activation_failure(ek: int, cmd: int, waiter: bool) -> bool:
+    """
+    pre: 0 <= ek < 4 and 0 <= cmd < 4
+    post: _
+    """
+    return held(_activation_failure, {"ek": core.pick(ek, 0, 4), "cmd": core.pick(cmd, 0, 4), "waiter": bool(core.pick(int(waiter), 0, 2))})
+
+
+def _activation_failure(ek, cmd, waiter):
+    """
+    A mailbox that cannot be instantiated (its folder is renamed or deleted while it is being read, or
+    reading it fails): the command naming it is answered at once, and so is every later command naming
+    the same mailbox - also one that was already waiting for the instantiation.
+    """
+    import asimap.mbox as M
+    from mailbox import NoSuchMailboxError
+
+    tag = "activation_failure"
+    w, inbox, other = _world(2)
+    env.make_folder("fresh", [1])  # on disk, not active yet
+    S = w.session("S")
+    X = w.session("X")
+    exc = [NoSuchMailboxError("/fake/mail/fresh"), FileNotFoundError("/fake/mail/fresh/1"), OSError("read error"), KeyError("fresh")][ek]
+    real_new = M.Mailbox.new
+    state = {"failed": False}
+
+    async def failing_new(*a, **k):
+        if not state["failed"]:
+            state["failed"] = True
+            from asv.symrt.folder import maybe_yield
+
+            TREE.yield_points = True
+            await maybe_yield()  # the other session's request arrives while the folder is being read
+            raise exc
+        return await real_new(*a, **k)
+
+    texts = ["t1 STATUS fresh (MESSAGES)", "t1 SELECT fresh", "t1 EXAMINE fresh", "t1 COPY 1 fresh"]
+    if cmd == 3:
+        S.select_direct(inbox)
+    M.Mailbox.new = classmethod(lambda cls, *a, **k: failing_new(*a, **k))
+    try:
+        t0 = w.loop.time()
+        if waiter:
+            st, ts = w.loop.run_all([S.h.command(w.make_cmd(texts[cmd])), X.h.command(w.make_cmd("x1 STATUS fresh (MESSAGES)"))], max_time=t0 + 10 * WATCHDOG)
+        else:
+            st, t = w.loop.run_coro(S.h.command(w.make_cmd(texts[cmd])), max_time=t0 + 10 * WATCHDOG)
+        reached()
+        check(st == "ok" and w.loop.time() - t0 < WATCHDOG, f"C06/{tag}/answered_only_by_watchdog", elapsed=w.loop.time() - t0, exc=repr(exc), waiter=waiter)
+        l1 = S.new_lines()
+        check(len(tagged_lines(l1, "t1")) == 1, f"C06/{tag}/not_exactly_one_tagged_reply", lines=l1)
+        if waiter:
+            lx = X.new_lines()
+            check(len(tagged_lines(lx, "x1")) == 1, f"C06/{tag}/waiting_session_not_answered", lines=lx)
+    finally:
+        M.Mailbox.new = real_new
+    # afterwards the name is not blocked: the folder is still there, a STATUS on it is answered at once with OK
+    t1 = w.loop.time()
+    r = w.issue(X, "x2 STATUS fresh (MESSAGES)")
+    l2 = X.new_lines()
+    check(r["status"] == "ok" and w.loop.time() - t1 < WATCHDOG, f"C06/{tag}/mailbox_answers_only_by_watchdog_afterwards", lines=l2, exc=repr(exc))
+    tl = tagged_lines(l2, "x2")
+    check(len(tl) == 1 and tl[0].startswith("x2 OK"), f"C06/{tag}/mailbox_unusable_afterwards", lines=l2, exc=repr(exc))
+    w.shutdown()
+
+
 def proxy_run(sel: int) -> bool:
     """
     pre: 0 <= sel < 15
@@ -279,6 +344,7 @@ def jobs(tier):
             if KINDS[kind][1]:
                 # the empty mailbox (thorough runs n = 0 and n = 1 for every kind)
                 js.append({"name": f"one_command[{kind},n=0]", "fn": "one_command", "params": {"kind": kind, "n": 0}, "timeout": T, "per_path": 90, "unblock": UNBLOCK})
+    js.append({"name": "activation_failure", "fn": "activation_failure", "params": {}, "timeout": T, "per_path": 90, "unblock": UNBLOCK})
     js.append({"name": "proxy_run", "fn": "proxy_run", "params": {}, "timeout": T, "per_path": 90, "unblock": UNBLOCK})
     if tier == "thorough":
         for kind in KINDS:
@@ -290,6 +356,7 @@ def jobs(tier):
 
 
 SAMPLES = [
+    {"fn": "activation_failure", "params": {}, "args": {"ek": 0, "cmd": 1, "waiter": True}},
     {"fn": "one_command", "params": {"kind": "fetch", "n": 2}, "args": {"st": 1, "m": 0, "form": 0, "s": 1}},
     {"fn": "one_command", "params": {"kind": "select", "n": 2}, "args": {"st": 0, "m": 1, "form": 0, "s": 1}},
     {"fn": "one_command", "params": {"kind": "uid_move", "n": 2}, "args": {"st": 1, "m": 1, "form": 1, "s": 3}},
